@@ -67,6 +67,11 @@ def run(ck):
     _il.import_module("props.C01").token_factory_rules(ck, "2")
     _cm.import_results(ck, _il.import_module("props.C01"), "6", None, "2")
     _cm.import_results(ck, _il.import_module("props.C05"), "6", "Timer", "2")
+    # ---- shared clauses demonstrated by seeding round 8 (the property broken by added code) --------------------
+    from props import common as _c8
+    import importlib as _il8
+    _m8 = lambda n: _il8.import_module('props.' + n)
+    _c8.import_results(ck, _m8("C09"), "3", "dispatch_events", "2")  # every Reregister is applied (two children finishing in one batch ask twice)
 
 
 def coverage_extra(checks):
